@@ -12,8 +12,8 @@
 import time
 from fractions import Fraction
 
-from vt.c18_util import (FixedSampler, boollist, coq_cases, ensure_dirs, fr, interleave, patched, queue_fn,
-                         quiet_logs, zs, zs_floor)
+from vt.c18_util import (FixedSampler, boollist, ensure_dirs, fr, patched, queue_fn,
+                         quiet_logs, run_jobs, zs, zs_floor)
 from vt.common import cq, cz
 
 HEADER = ("From Coq Require Import List ZArith QArith.\nFrom RL4CO Require Import Data.GenRouting Harness.HC18_routing.\n"
@@ -70,16 +70,10 @@ class Run:
         return s
 
     def evaluate(self):
-        from concurrent.futures import ThreadPoolExecutor
-
-        def one(job):
-            label, ctype, fn, cases, metas, handler = job
-            cases, metas = interleave(cases, metas, 2)
-            big = len(cases) > 150
-            return metas, coq_cases(self.ctx, "routing_" + label, HEADER, ctype, fn, cases, metas, shard=(len(cases) + 1) // 2 if big else len(cases))
-        with ThreadPoolExecutor(max_workers=4) as ex:
-            results = list(ex.map(one, self.jobs))
-        for (label, ctype, fn, cases, _, handler), (metas, codes) in zip(self.jobs, results):
+        res = run_jobs(self.ctx, "routing", HEADER, [(l, t, f, c, m) for (l, t, f, c, m, h) in self.jobs],
+                       cap=600 if self.thorough else 120)
+        for (label, ctype, fn, cases, metas, handler) in self.jobs:
+            codes = res.get(label)
             st = {"cases": len(cases)}
             if codes is not None:
                 st["nonzero"] = sum(1 for c in codes if c != 0)
@@ -209,10 +203,11 @@ def cvrp(run):
     dists = [("uniform", {})] + ([("cluster", dict(n_cluster=3)), ("mixed", dict(n_cluster_mix=1)),
                                   ("gaussian_mixture", dict(num_modes=3, cdist=10))] if run.thorough else [("cluster", dict(n_cluster=3))])
     B = 64 if run.thorough else 8
-    for n in sizes:
-        for dist, kw in dists:
-            if dist != "uniform" and n not in (20, 50):
-                continue
+    plan = [(n, dist, kw, B) for n in sizes for dist, kw in dists if dist == "uniform" or n in (20, 50)]
+    if run.thorough:      # bulk: 10^4 small rows
+        plan += [(10, "uniform", {}, 1000)] * 6 + [(13, "uniform", {}, 1000)] * 4
+    for (n, dist, kw, B) in plan:
+        if True:
             seed = run.seed()
             g = CVRPGenerator(num_loc=n, loc_distribution=dist if dist != "uniform" else torch.distributions.Uniform, **kw)
             td = g(B)
@@ -233,7 +228,7 @@ def cvrp(run):
                     run.ctx.failure(SIG["cvrp"], dict(base, row=b, observed_demand_x_capacity=ks,
                                                       what="demand * capacity is not an integer in 1..9"), tag="cvrp")
                 cases.append("([%s], %s)" % ("; ".join(cz(zs(x)) for x in dem), cz(zs(1.0))))
-                metas.append(dict(base, row=b, observed_demand=dem))
+                metas.append(dict(base, row=b, observed_demand=dem if B < 100 else None))
                 run.ctx.seen({"cvrp_a": [seed, b, n, dist]}, nontrivial=True)
                 run.ctx.count("cvrp_generated_rows")
     run.add("cvrp_prop", "list Z * Z", "check_cvrp_prop", cases, metas, prop_handler(run, "cvrp"))
@@ -334,9 +329,12 @@ def cvrptw(run):
     # (a) unmodified generator, scaled and unscaled
     cases, metas = [], []
     B = 48 if run.thorough else 8
-    for n in ([5, 10, 20, 50, 100] if run.thorough else [5, 20, 50]):
-        for scale in (False, True):
-            for mt in (480, 600):
+    plan = [(n, scale, mt, B) for n in ([5, 10, 20, 50, 100] if run.thorough else [5, 20, 50]) for scale in (False, True) for mt in (480, 600)]
+    if run.thorough:      # bulk: 10^4 small rows
+        plan += [(6, False, 480, 1000)] * 5 + [(6, True, 480, 1000)] * 3 + [(8, False, 600, 1000)] * 2
+    for (n, scale, mt, B) in plan:
+        if True:
+            if True:
                 seed = run.seed()
                 g = CVRPTWGenerator(num_loc=n, max_time=mt, scale=scale)
                 td = g(B)
@@ -355,33 +353,51 @@ def cvrptw(run):
                     if not ok0:
                         run.ctx.failure(SIG["cvrptw"], dict(base, row=b, depot_window=[float(tw[b, 0, 0]), H], what="depot window is not [0, max_time]"), tag="cvrptw")
                     cases.append("(%s, %s, [%s])" % (cq(tol), q(H), "; ".join(q4(c) for c in cust)))
-                    metas.append(dict(base, row=b, customers_d_dur_lo_hi=cust, horizon=H))
+                    metas.append(dict(base, row=b, customers_d_dur_lo_hi=cust if B < 100 else None, horizon=H))
                     run.ctx.seen({"cvrptw_a": [seed, b, n, scale, mt]}, nontrivial=True)
                     run.ctx.count("cvrptw_generated_rows")
     run.add("cvrptw_prop", "Q * Q * list (Q * Q * Q * Q)", "check_cvrptw_prop", cases, metas, prop_handler(run, "cvrptw"))
 
-    # documented parameters max_loc / max_time: does the feasibility assert protect the user?
+    # ---- known finding, dedicated deterministic re-finding experiment (no dependence on VERIF_SEED):
+    #  (i) the Coq witness C18_cvrptw_far_customer_refuted on the real code: one customer at (180, 240), d = 300, max_time 480,
+    #      draws 1/4 and 1/2 -> window [240, 270]: the assert passes, the customer can never be reached before 270;
+    #  (ii) the unmodified generator, max_loc = 250, num_loc = 10, batch 2, torch seeds 0..3 (fixed).
     cases, metas = [], []
-    for ml in (200.0, 250.0, 400.0):
-        g = CVRPTWGenerator(num_loc=10, max_loc=ml, max_time=480)
-        tries = 60 if run.thorough else 12
-        for _ in range(tries):
-            seed = run.seed()
-            try:
-                td = g(2)
-            except AssertionError:
-                run.ctx.count("cvrptw_far_batches_rejected_by_generator_assert")
-                continue
-            d = get_distance(td["depot"], td["locs"].transpose(0, 1)).transpose(0, 1)
-            tw, du = td["time_windows"], td["durations"]
-            for b in range(2):
-                cust = [(float(d[b, j]), float(du[b, j + 1]), float(tw[b, j + 1, 0]), float(tw[b, j + 1, 1])) for j in range(10)]
-                cases.append("(%s, %s, [%s])" % (cq(Fraction(1, 4096)), q(float(tw[b, 0, 1])), "; ".join(q4(c) for c in cust)))
-                metas.append({"unit": "routing", "gen": "cvrptw", "kind": "generated", "kwargs": {"num_loc": 10, "max_loc": ml, "max_time": 480},
-                              "torch_seed": seed, "batch": 2, "row": b, "customers_d_dur_lo_hi": cust, "horizon": float(tw[b, 0, 1]),
-                              "what": "the generator returned this row (its assert passed) although a customer has 2*dist > max_time"})
-                run.ctx.seen({"cvrptw_far": [seed, b, ml]}, nontrivial=True)
-                run.ctx.count("cvrptw_far_rows")
+    try:
+        L = torch.tensor([[[0.0, 0.0], [180.0, 240.0]]])
+        g = CVRPTWGenerator(num_loc=1, max_loc=300.0, max_time=480, loc_sampler=FixedSampler(L), demand_sampler=FixedSampler(torch.full((1, 1), 3.5)))
+        with patched(torch, "rand", queue_fn([torch.tensor([[0.0, 0.25]]), torch.tensor([[0.0, 0.5]])])):
+            td = g(1)
+        tw = td["time_windows"]
+        d = get_distance(td["depot"], td["locs"].transpose(0, 1)).transpose(0, 1)
+        cust = [(float(d[0, 0]), float(td["durations"][0, 1]), float(tw[0, 1, 0]), float(tw[0, 1, 1]))]
+        cases.append("(%s, %s, [%s])" % (cq(Fraction(1, 4096)), q(float(tw[0, 0, 1])), "; ".join(q4(c) for c in cust)))
+        metas.append({"unit": "routing", "gen": "cvrptw", "kind": "far_witness", "kwargs": {"num_loc": 1, "max_loc": 300.0, "max_time": 480},
+                      "locs_depot_first": [[0.0, 0.0], [180.0, 240.0]], "ts_1": [0.0, 0.25], "ts_2": [0.0, 0.5],
+                      "customers_d_dur_lo_hi": cust, "horizon": float(tw[0, 0, 1]),
+                      "what": "the generator returned this row (its assert passed) although the customer has 2*dist > max_time",
+                      "coq_witness": "C18_cvrptw_far_customer_refuted"})
+        run.ctx.seen({"cvrptw_far": "witness"}, nontrivial=True)
+    except AssertionError:
+        run.ctx.count("cvrptw_far_witness_rejected_by_generator_assert")
+    g = CVRPTWGenerator(num_loc=10, max_loc=250.0, max_time=480)
+    for seed in (0, 1, 2, 3):
+        torch.manual_seed(seed)
+        try:
+            td = g(2)
+        except AssertionError:
+            run.ctx.count("cvrptw_far_batches_rejected_by_generator_assert")
+            continue
+        d = get_distance(td["depot"], td["locs"].transpose(0, 1)).transpose(0, 1)
+        tw, du = td["time_windows"], td["durations"]
+        for b in range(2):
+            cust = [(float(d[b, j]), float(du[b, j + 1]), float(tw[b, j + 1, 0]), float(tw[b, j + 1, 1])) for j in range(10)]
+            cases.append("(%s, %s, [%s])" % (cq(Fraction(1, 4096)), q(float(tw[b, 0, 1])), "; ".join(q4(c) for c in cust)))
+            metas.append({"unit": "routing", "gen": "cvrptw", "kind": "generated", "kwargs": {"num_loc": 10, "max_loc": 250.0, "max_time": 480},
+                          "torch_seed": seed, "batch": 2, "row": b, "customers_d_dur_lo_hi": cust, "horizon": float(tw[b, 0, 1]),
+                          "what": "the generator returned this row (its assert passed) although a customer has 2*dist > max_time"})
+            run.ctx.seen({"cvrptw_far": [seed, b]}, nontrivial=True)
+            run.ctx.count("cvrptw_far_rows")
     run.add("cvrptw_far", "Q * Q * list (Q * Q * Q * Q)", "check_cvrptw_prop", cases, metas, prop_handler(run, "cvrptw_far"))
 
 
@@ -521,10 +537,11 @@ def mtvrp(run):
     pcases, pmetas = [], []
     sizes = [5, 10, 20, 50] if run.thorough else [6, 20]
     B = 24 if run.thorough else 4
-    for name in VARIANT_GENERATION_PRESETS:
-        for n in sizes:
-            if n == 50 and name not in ("all", "ovrpbltw", "vrptw"):
-                continue
+    plan = [(name, n, B) for name in VARIANT_GENERATION_PRESETS for n in sizes if not (n == 50 and name not in ("all", "ovrpbltw", "vrptw"))]
+    if run.thorough:      # bulk: 10^4 small rows over all presets
+        plan += [(name, 5, 530) for name in VARIANT_GENERATION_PRESETS]
+    for (name, n, B) in plan:
+        if True:
             seed = run.seed()
             g = MTVRPGenerator(num_loc=n, variant_preset=name)
             td = g(B)
@@ -595,29 +612,64 @@ def op_svrp_misc(run):
             metas.append({"unit": "routing", "gen": "op", "kind": "model_vs_code", "locs_depot_first": locs[b], "observed_prize_x100": obs, "sig": SIG["op"]})
             run.ctx.seen({"op_b": locs[b]}, nontrivial=n >= 3)
     run.add("op_dist", "list Q * list Z", "check_op_dist", cases, metas, mismatch_handler(run, "op prize_type=dist"))
-    # ---- OP, unmodified generator
-    for n in (7, 20, 50, 100):
-        seed = run.seed()
-        td = OPGenerator(num_loc=n)(8)
-        pr = td["prize"] * 100
-        ok = (tuple(td["prize"].shape) == (8, n) and bool(((pr - pr.round()).abs() < 1e-3).all()) and float(pr.min()) >= 0.999 and float(pr.max()) <= 100.001
-              and bool(((td["prize"].max(-1)[0] - 1.0).abs() < 1e-6).all()) and tuple(td["max_length"].shape) == (8,)
-              and float(td["max_length"][0]) in (2.0, 3.0, 4.0))
-        run.ctx.seen({"op_a": [seed, n]}, nontrivial=True)
-        run.ctx.count("op_generated_batches")
-        if not ok:
-            run.ctx.failure(SIG["op"], {"unit": "routing", "gen": "op", "kind": "generated", "kwargs": {"num_loc": n}, "torch_seed": seed, "batch": 8,
-                                        "prize": td["prize"].tolist(), "max_length": td["max_length"].tolist()}, tag="op")
-    for pt in ("const", "unif"):
+    # ---- OP "unif" / "const" on chosen draws (repaired code, repo commit 3bee17c; the crash probe stays: if the AttributeError
+    #      returns, the same signature fires again)
+    import numpy as np
+    ucases, umetas, ccases, cmetas = [], [], [], []
+    for rep in range(6 if run.thorough else 3):
+        n, B = rng.choice([1, 4, 9]), 2
+        ks = torch.tensor([[rng.choice([0, 99, rng.randrange(100)]) for _ in range(n)] for _ in range(B)])
+        log = []
         try:
-            td = OPGenerator(num_loc=20, prize_type=pt)(4)
-            pr = td["prize"] * 100
-            if not (float(pr.min()) >= 0.999 and float(pr.max()) <= 100.001):
-                run.ctx.failure(SIG["op"], {"unit": "routing", "gen": "op", "kind": "generated", "kwargs": {"num_loc": 20, "prize_type": pt}, "prize": td["prize"].tolist()}, tag="op")
+            with patched(torch, "randint", queue_fn([ks], log)):
+                td = OPGenerator(num_loc=n, prize_type="unif")(B)
+            tdc = OPGenerator(num_loc=n, prize_type="const")(B)
         except AttributeError as e:
-            run.ctx.failure(SIG["op_crash"], {"unit": "routing", "gen": "op", "kind": "crash", "kwargs": {"num_loc": 20, "prize_type": pt}, "batch": 4,
+            run.ctx.failure(SIG["op_crash"], {"unit": "routing", "gen": "op", "kind": "crash", "kwargs": {"num_loc": n, "prize_type": "unif"}, "batch": B,
                                               "expected": "a TensorDict with prize in (0, 1]", "observed": repr(e)}, tag="op")
-        run.ctx.seen({"op_pt": pt}, nontrivial=True)
+            continue
+        if log and tuple(log[0][0][:2]) != (0, 100):
+            run.ctx.broken.append("correspondence C18/routing/op: unif prizes drawn by randint%s, the theorem assumes randint(0, 100)" % (log[0][0][:2],))
+        for b in range(B):
+            obs = [int(round(float(x) * 100)) for x in td["prize"][b]]
+            if not all(np.float32(1 + int(k)) / np.float32(100) == np.float32(float(x)) for k, x in zip(ks[b], td["prize"][b])):
+                run.ctx.broken.append("correspondence C18/routing/op: unif prize is not float32(1 + k) / 100")
+            ucases.append("([%s], [%s])" % ("; ".join(cz(int(k)) for k in ks[b]), "; ".join(cz(k) for k in obs)))
+            umetas.append({"unit": "routing", "gen": "op", "kind": "model_vs_code", "prize_type": "unif", "randint_draws": ks[b].tolist(),
+                           "observed_prize_x100": obs, "sig": SIG["op"]})
+            cobs = [float(x) * 100 for x in tdc["prize"][b]]
+            ccases.append("(%d%%nat, [%s])" % (n, "; ".join(cz(int(x)) if float(x) == int(x) else cz(-1) for x in cobs)))
+            cmetas.append({"unit": "routing", "gen": "op", "kind": "model_vs_code", "prize_type": "const", "num_loc": n, "observed_prize_x100": cobs, "sig": SIG["op"]})
+            run.ctx.seen({"op_unif": ks[b].tolist()}, nontrivial=n >= 3)
+    run.add("op_unif", "list Z * list Z", "check_op_unif", ucases, umetas, mismatch_handler(run, "op prize_type=unif"))
+    run.add("op_const", "nat * list Z", "check_op_const", ccases, cmetas, mismatch_handler(run, "op prize_type=const"))
+    # ---- OP, unmodified generator, all three prize types (the two crash probes of the former defect run here on every run)
+    pcases, pmetas = [], []
+    plan = [(pt, n, 8) for pt in ("dist", "const", "unif") for n in (7, 20, 50, 100)]
+    if run.thorough:      # bulk: 10^4 rows
+        plan += [("dist", 10, 1000)] * 4 + [("unif", 10, 1000)] * 4 + [("const", 10, 1000)] * 2
+    for (pt, n, B) in plan:
+        seed = run.seed()
+        base = {"unit": "routing", "gen": "op", "kind": "generated", "kwargs": {"num_loc": n, "prize_type": pt}, "torch_seed": seed, "batch": B}
+        try:
+            td = OPGenerator(num_loc=n, prize_type=pt)(B)
+        except AttributeError as e:
+            run.ctx.failure(SIG["op_crash"], {"unit": "routing", "gen": "op", "kind": "crash", "kwargs": {"num_loc": n, "prize_type": pt}, "batch": B,
+                                              "expected": "a TensorDict with prize in (0, 1]", "observed": repr(e)}, tag="op")
+            continue
+        ok = (tuple(td["prize"].shape) == (B, n) and tuple(td["max_length"].shape) == (B,) and float(td["max_length"][0]) in (2.0, 3.0, 4.0)
+              and tuple(td["locs"].shape) == (B, n, 2) and tuple(td["depot"].shape) == (B, 2))
+        if not ok:
+            run.ctx.failure(SIG["op"], dict(base, what="shapes / max_length", shapes={k: list(v.shape) for k, v in td.items()}), tag="op")
+            continue
+        ptc = {"const": 0, "unif": 1, "dist": 2}[pt]
+        pl = td["prize"].tolist()
+        for b in range(B):
+            pcases.append("(%d%%nat, %s, [%s])" % (ptc, cq(Fraction(1, 1 << 20)), "; ".join(q(x) for x in pl[b])))
+            pmetas.append(dict(base, row=b))
+            run.ctx.seen({"op_a": [seed, b, n, pt]}, nontrivial=True)
+            run.ctx.count("op_generated_rows_" + pt)
+    run.add("op_prop", "nat * Q * list Q", "check_op_prop", pcases, pmetas, prop_handler(run, "op"))
 
     # ---- SVRP on chosen draws
     cases, metas = [], []
@@ -643,9 +695,11 @@ def op_svrp_misc(run):
             run.ctx.seen({"svrp_b": [raw[b].tolist(), us[b].tolist()]}, nontrivial=m >= 2)
     run.add("svrp", "list Q * list Q * list Q * list Q", "check_svrp", cases, metas, mismatch_handler(run, "svrp"))
     cases, metas = [], []
-    for n, costs in ((10, [1, 2, 3]), (20, [1, 2, 3, 4, 5]), (7, [1])):
+    plan = [(n, costs, 16 if run.thorough else 6) for n, costs in ((10, [1, 2, 3]), (20, [1, 2, 3, 4, 5]), (7, [1]))]
+    if run.thorough:      # bulk: 10^4 rows
+        plan += [(8, [1, 2, 3], 1000)] * 10
+    for (n, costs, B) in plan:
         seed = run.seed()
-        B = 16 if run.thorough else 6
         td = SVRPGenerator(num_loc=n, tech_costs=costs)(B)
         if tuple(td["techs"].shape) != (B, len(costs), 1) or tuple(td["skills"].shape) != (B, n, 1):
             run.ctx.failure(SIG["misc"], {"unit": "routing", "gen": "svrp", "kind": "generated", "kwargs": {"num_loc": n, "tech_costs": costs}, "torch_seed": seed,
@@ -653,8 +707,7 @@ def op_svrp_misc(run):
             continue
         for b in range(B):
             cases.append("([%s], [%s])" % ("; ".join(q(x) for x in td["techs"][b, :, 0]), "; ".join(q(x) for x in td["skills"][b, :, 0])))
-            metas.append({"unit": "routing", "gen": "svrp", "kind": "generated", "kwargs": {"num_loc": n, "tech_costs": costs}, "torch_seed": seed, "batch": B, "row": b,
-                          "techs": td["techs"][b, :, 0].tolist(), "skills": td["skills"][b, :, 0].tolist()})
+            metas.append({"unit": "routing", "gen": "svrp", "kind": "generated", "kwargs": {"num_loc": n, "tech_costs": costs}, "torch_seed": seed, "batch": B, "row": b})
             run.ctx.seen({"svrp_a": [seed, b, n]}, nontrivial=True)
     run.add("svrp_prop", "list Q * list Q", "check_svrp_prop", cases, metas, prop_handler(run, "svrp"))
 
@@ -680,19 +733,26 @@ def op_svrp_misc(run):
                 run.ctx.failure(SIG["pdp"], dict(metas[-1], what="shapes / ranges", shapes={k: list(v.shape) for k, v in td.items()}), tag=name)
             run.ctx.seen({"pdp": [name, n, seed]}, nontrivial=True)
     run.add("pdp", "Z * Z", "check_pdp", cases, metas, mismatch_handler(run, "pdp num_loc"))
-    for n in (5, 20, 33):
+    for (n, Bm) in [(5, 16), (20, 16), (33, 16)] + ([(10, 2500)] * 4 if run.thorough else []):
         seed = run.seed()
-        td = MTSPGenerator(num_loc=n, min_num_agents=2, max_num_agents=4)(16)
-        ok = tuple(td["locs"].shape) == (16, n, 2) and int(td["num_agents"].min()) >= 2 and int(td["num_agents"].max()) <= 4
-        td2 = PCTSPGenerator(num_loc=n)(16)
+        td = MTSPGenerator(num_loc=n, min_num_agents=2, max_num_agents=4)(Bm)
+        ok = tuple(td["locs"].shape) == (Bm, n, 2) and int(td["num_agents"].min()) >= 2 and int(td["num_agents"].max()) <= 4
+        td2 = PCTSPGenerator(num_loc=n)(Bm)
         mp = PCTSPGenerator(num_loc=n).max_penalty
         ok2 = (float(td2["penalty"].min()) >= 0 and float(td2["penalty"].max()) <= mp + 1e-6 and float(td2["deterministic_prize"].min()) >= 0
                and float(td2["deterministic_prize"].max()) <= 4.0 / n + 1e-6
                and bool((td2["stochastic_prize"] <= 2 * td2["deterministic_prize"] + 1e-6).all()) and float(td2["stochastic_prize"].min()) >= 0)
-        td3 = TSPGenerator(num_loc=n)(16)
-        ok3 = tuple(td3["locs"].shape) == (16, n, 2) and float(td3["locs"].min()) >= 0 and float(td3["locs"].max()) <= 1
+        td3 = TSPGenerator(num_loc=n)(Bm)
+        tdp = PDPGenerator(num_loc=n)(Bm)
+        tdm = MDCPDPGenerator(num_loc=n)(Bm)
+        okp = (tdp["locs"].shape[1] % 2 == 0 and tdm["locs"].shape[1] % 2 == 0 and int(tdm["capacity"].min()) >= 1 and int(tdm["capacity"].max()) <= 5
+               and float(tdp["locs"].min()) >= 0 and float(tdp["locs"].max()) <= 1 and float(tdm["depot"].min()) >= 0 and float(tdm["depot"].max()) <= 1)
+        ok3 = okp and tuple(td3["locs"].shape) == (Bm, n, 2) and float(td3["locs"].min()) >= 0 and float(td3["locs"].max()) <= 1
         run.ctx.seen({"misc": [n, seed]}, nontrivial=True)
-        run.ctx.count("mtsp_pctsp_tsp_generated_batches", 3)
+        run.ctx.count("mtsp_pctsp_tsp_pdp_mdcpdp_generated_instances_checked_directly", 5 * Bm)
+        if Bm > 100:      # instance-level bookkeeping for the bulk (checked by vectorised comparisons, not in Coq)
+            run.ctx.evaluations += 5 * Bm
+            run.ctx.nontrivial.update("misc-%d-%d-%d" % (seed, k, b_) for k in range(5) for b_ in range(Bm))
         for okx, name in ((ok, "mtsp"), (ok2, "pctsp"), (ok3, "tsp")):
             if not okx:
                 run.ctx.failure(SIG["misc"], {"unit": "routing", "gen": name, "kind": "generated", "kwargs": {"num_loc": n}, "torch_seed": seed,
@@ -750,6 +810,24 @@ def replay(obj):
             print("observed:", repr(e))
             print("still fails")
             return 1
+    if kind == "far_witness":
+        from rl4co.envs.routing.cvrptw.generator import CVRPTWGenerator
+        L = torch.tensor([obj["locs_depot_first"]], dtype=torch.float32)
+        g = CVRPTWGenerator(loc_sampler=FixedSampler(L), demand_sampler=FixedSampler(torch.full((1, 1), 3.5)), **obj["kwargs"])
+        print("expected: either an AssertionError (customer at distance 300 with max_time 480 cannot be served) or a window the customer can reach and leave in time")
+        try:
+            with patched(torch, "rand", queue_fn([torch.tensor([obj["ts_1"]], dtype=torch.float32), torch.tensor([obj["ts_2"]], dtype=torch.float32)])):
+                td = g(1)
+        except AssertionError as e:
+            print("observed: generator now raises", repr(e))
+            print("no longer fails")
+            return 0
+        tw = td["time_windows"][0].tolist()
+        d = float(get_distance(td["depot"], td["locs"].transpose(0, 1)).transpose(0, 1)[0, 0])
+        bad = not (tw[1][0] < tw[1][1] and d <= tw[1][1] and tw[1][1] + d <= tw[0][1])
+        print("observed: distance %s, window %s, depot window %s" % (d, tw[1], tw[0]))
+        print("still fails" if bad else "no longer fails")
+        return 1 if bad else 0
     if kind == "generated" and gen == "cvrptw":
         from rl4co.envs.routing.cvrptw.generator import CVRPTWGenerator
         torch.manual_seed(obj["torch_seed"])
